@@ -153,18 +153,21 @@ def stepEnc (name ver : String) (tree : List String) (impl : String) : String :=
       -- Spec on the implementation's output
       let verdict :=
         match toks impl with
-        | h :: "ok" :: t2 =>
-          match parseHex? h, parseTree t2 with
-          | some ib, some it =>
+        | h :: rest =>
+          match parseHex? h with
+          | none => s!"0:{name}:v{ver'}:{h}"          -- panic:… / hang
+          | some ib =>
             if ib != bytes then
-              let off := firstDiff ib bytes
-              s!"0:{name}:v{ver'}:bytes@{fieldAtOffset ver' top v off}"
-            else match diffPath top.ty it want with
-              | none => "1"
-              | some p => s!"0:{name}:v{ver'}:read@{p}"
-          | _, _ => s!"0:{name}:v{ver'}:unparsable"
-        | h :: _ =>
-          if (parseHex? h).isSome then s!"0:{name}:v{ver'}:read-failed" else s!"0:{name}:v{ver'}:{h}"
+              s!"0:{name}:v{ver'}:bytes@{fieldAtOffset ver' top v (firstDiff ib bytes)}"
+            else match rest with
+              | "ok" :: t2 =>
+                match parseTree t2 with
+                | some it =>
+                  match diffPath top.ty it want with
+                  | none => "1"
+                  | some p => s!"0:{name}:v{ver'}:read@{p}"
+                | none => s!"0:{name}:v{ver'}:unparsable"
+              | _ => s!"0:{name}:v{ver'}:read-failed"
         | [] => "0:empty"
       s!"{mout} | {verdict} | {nt}"
   | none, _, _ => "unknown-type | - | 0"
